@@ -489,6 +489,8 @@ public:
         c.tick_ms     = rng.pick(std::vector<int64_t>{1, 5});
         c.ratio_q     = rng.range(0, 4);
         c.rseed       = rng.next();
+        if (((c.rseed >> 40) & 3) == 0)
+            c.mlf = Generator::lf_choices()[(size_t)((c.rseed >> 44) % Generator::lf_choices().size())];
         CasePlan plan;
         plan.cfg     = c;
         plan.profile = rng.pick(std::vector<int>{P_CHURN, P_TTLEDGE, P_SHAPE, P_RANGES, P_AGING});
